@@ -182,3 +182,10 @@ def mirror_comparisons(source: str) -> str:
             return node
     tree = ast.fix_missing_locations(T().visit(tree))
     return ast.unparse(tree) + "\n"
+
+
+def all_of_them(source: str) -> str:
+    """The five refactorings composed."""
+    for f in (mirror_comparisons, split_conjunctions, nest_after_early_exit, swap_if_else, rename_locals):
+        source = f(source)
+    return source
